@@ -1,5 +1,5 @@
 //! slicec-bounded <check>   -- prints one JSON object per counterexample (at most 5) and a summary.
-//! checks: plugin (C19)  preproc (C06)  decode (C11)  totals (C07)  visitor (C20)  fileset (C17)  lexical (C01)  snippet (C09)  lints (C13)  spans (C09)  request (C08)  comments (C16)  fidelity (C02)  scopes (C03)  rules (C04)  cycles (C05)  emission (C14)  roundtrip (C10)
+//! checks: plugin (C19)  preproc (C06)  decode (C11)  totals (C07)  visitor (C20)  fileset (C17)  lexical (C01)  snippet (C09)  lints (C13)  spans (C09)  request (C08)  comments (C16)  fidelity (C02)  scopes (C03)  rules (C04)  cycles (C05)  emission (C14)  roundtrip (C10)  generators (C18)
 use std::collections::{BTreeMap, HashMap, HashSet};
 
 mod oracle_comments;
@@ -7,6 +7,7 @@ mod oracle_cycles;
 mod oracle_emission;
 mod oracle_fidelity;
 mod oracle_fileset;
+mod oracle_generators;
 mod oracle_lexical;
 mod oracle_lints;
 mod oracle_plugin;
@@ -122,10 +123,11 @@ fn main() {
         "cycles" => oracle_cycles::run(),
         "emission" => oracle_emission::run(),
         "roundtrip" => oracle_roundtrip::run(),
+        "generators" => oracle_generators::run(),
         "cycles-child" => oracle_cycles::child(std::env::args().nth(2).and_then(|s| s.parse().ok()).unwrap_or(0)),
         "one" => oracle_lexical::one(&std::env::args().nth(2).unwrap_or_default()),
         _ => {
-            eprintln!("usage: slicec-bounded plugin|preproc|decode|totals|visitor|fileset|lexical|snippet|lints|spans|request|comments|fidelity|scopes|rules|cycles|emission|roundtrip");
+            eprintln!("usage: slicec-bounded plugin|preproc|decode|totals|visitor|fileset|lexical|snippet|lints|spans|request|comments|fidelity|scopes|rules|cycles|emission|roundtrip|generators");
             2
         }
     };
